@@ -269,6 +269,10 @@ inline auto BasicPromise::await_transform(A&& awaitable) noexcept {
 
 inline void BasicPromise::resume_in_executor(
     BasicExecutor* executor, ::std::coroutine_handle<> handle) noexcept {
+  if (executor == nullptr) {
+    handle.resume();
+    return;
+  }
   auto ret = executor->invoke([handle] {
     handle.resume();
   });
